@@ -131,5 +131,3 @@ func cmdDebug(args []string) {
 		}
 	}
 }
-
-func cmdCheck(args []string) int { return 0 }
